@@ -114,11 +114,14 @@ package semap
 //@   ensures #cancelled result != nil ==> chanclosed(ctxdone(ctx))
 //@   modifies s.cur, wq(s).lmem, wq(s).lcnt, list.Element.lrk, list.Element.Value, list.Element.gw, chel, region($chanclosed), region($alloc), region($held)
 //
+// tokens are only ever granted by Weighted.acquire / notifyWaiters (whose action specifications are the FIFO rule): a
+// critical section that SemMap.acquire closes itself must not have changed any semaphore's count
 //@ func SemMap.acquire
 //@   requires s != nil && s.mux != nil && !held(s.mux) && s.rwRatio >= 1
 //@   requires #weight n == 1 || n == s.rwRatio
 //@   aftercall newWeighted result.gmap = s
 //@   aftercall newWeighted result.gkey = key
+//@   atunlock #admissiononlybyacquire forall x *Weighted :: { x.cur } x.cur == old(x.cur)
 //@   ensures #unlocked !held(s.mux)
 //@   ensures #result (result1 == nil ==> result0 != nil && result0.gmap == s && result0.gkey == key) && (result1 != nil ==> result0 == nil && chanclosed(ctxdone(ctx)))
 //@   modifies everything()
